@@ -131,6 +131,16 @@ def cases(draw, prof):
             e["v"][0] = new
         else:
             e["a"] = new
+    if len(pops) >= 2 and quantities and draw(st.integers(0, 3)) == 0:
+        # table layout: the first population's row is written as an "All" row (the fallback for populations without a row of their own)
+        # while the other populations keep their own rows, which take precedence - the numbers every population gets are unchanged
+        qa = draw(st.sampled_from(quantities))
+        if list(data["q"][qa].keys())[0] == pops[0]:
+            data.setdefault("all_rows", [])
+            if qa not in data["all_rows"]:
+                data["all_rows"].append(qa)
+            data.setdefault("all_rows_own", {})[qa] = list(pops[1:])
+            spec["labels"] = sorted(set(spec.get("labels", [])) | {"init:all-row-layout"})
     if draw(st.booleans()) and quantities:
         # start year off the data year: second data point so interpolation matters
         spec["settings"]["start"] = start  # (kept; data years equal the start year by construction)
@@ -142,6 +152,10 @@ def strategy(tier):
     if tier == "thorough":
         prof.update(max_ord=6, max_pops=3)
     return cases(prof)
+
+
+def data_has_all_row(case):
+    return bool(case["spec"]["data"].get("all_rows_own"))
 
 
 def check(case):
@@ -159,7 +173,7 @@ def check(case):
     data = spec["data"]
     start = spec["settings"]["start"]
     cmap = {x["name"]: x for x in spec["characs"]}
-    labels = ["class:" + case["klass"]]
+    labels = ["class:" + case["klass"]] + (["layout:all-row-with-own-rows"] if data_has_all_row(case) else [])
 
     def fac(name, pop):
         return data.get("yf", {}).get(name, {}).get(pop, 1.0) * data.get("myf", {}).get(name, 1.0)
